@@ -121,6 +121,8 @@ def label(shape, labels, pos):
     forest = []
     for kids in shape:
         name, kind = labels[pos[0]]
+        if kind == "c" and pos[0] % 2 == 1:
+            kind = "x"          # a C call at an odd preorder position ends by c_exception
         pos[0] += 1
         forest.append((name, kind, label(kids, labels, pos)))
     return forest
